@@ -49,6 +49,11 @@ Check(t) ==
          ELSE IF t.bexc # "" THEN <<"boundary-contains-failed:" \o t.bexc, "", nj>>
          ELSE IF ~t.bshape_ok THEN <<"one-truth-value-per-row(boundary)", "", nj>>
          ELSE IF BadFar(t) # {} THEN <<"boundary-accepts-far-point", "", nj>>
+         \* samples of the OPERANDS' boundaries: what is far from the boundary of the combination is rejected by the combination's boundary
+         \* (judged for cuts DECLARED contained -- the flag selects other code paths, the operands are constant primitives; in general
+         \* position the clause meets the acknowledged deviation bool_bd_shared_piece and parameter rows with degenerate operands)
+         ELSE IF "opnd" \in DOMAIN t /\ "contained" \in DOMAIN E(t) /\ \E j \in DOMAIN t.opnd : t.opnd[j].exc = "" /\ \E i \in DOMAIN t.opnd[j].bits :
+                    t.opnd[j].bits[i] = 1 /\ ~NearBdTol(E(t), Q(t.opnd[j].pts[i]), EpsFar) THEN <<"boundary-accepts-far-point(operand boundary sample)", "", nj>>
          ELSE IF \E j \in DOMAIN t.own : t.own[j].exc \in {"contains:AssertionError", "contains:RuntimeError", "contains:IndexError", "contains:TypeError", "contains:ValueError", "contains:hang"}
               THEN <<"boundary-contains-failed(own samples)", "", nj>>
          \* acknowledged deviation "bool_bd_shared_piece": every rejected own sample lies on the own boundaries of at least two
